@@ -194,6 +194,14 @@ func (a *Attributes) XXX_UnmarshalByFlags(flags uint32, buf *Buffer) (err error)
 	if a.Flags&AttrExtended != 0 {
 		count := buf.ConsumeCount()
 
+		// Each extended attribute is two strings, so at least 8 bytes long:
+		// a larger count cannot fit, and must not drive the allocation below.
+		if count > buf.Len()/8 {
+			buf.off = len(buf.b)
+			buf.Err = ErrShortPacket
+			return buf.Err
+		}
+
 		a.ExtendedAttributes = make([]ExtendedAttribute, count)
 		for i := range a.ExtendedAttributes {
 			a.ExtendedAttributes[i].UnmarshalFrom(buf)
